@@ -139,3 +139,75 @@ def rotate_event(event: dict[int, np.ndarray], R4: np.ndarray) -> dict[int, np.n
 
 def shift_ids(event: dict[int, np.ndarray], shift: int) -> dict[int, np.ndarray]:
     return {i + shift: p for i, p in event.items()}
+
+
+# --------------------------------------------------------------------------
+# Helicity angles by boost-and-rotate, following the documented conventions
+# (docstrings / doctests of compute_helicity_angles, get_helicity_angle_symbols and
+# get_boost_chain_suffix): the angle pair of a node is *named* after the helicity-state
+# child (the child with the smaller tuple of attached final-state ids) and *filled* with
+# the direction of the child that decays further, or of the helicity-state child when
+# both children are final; a decaying child's frame is reached with
+# Bz(|p|/E) . Ry(-theta) . Rz(-phi) of its summed momentum.
+def _attached(topology, edge_id):
+    edge = topology.edges[edge_id]
+    if edge.ending_node_id is None:
+        return (edge_id,)
+    out = ()
+    for c in topology.get_edge_ids_outgoing_from_node(edge.ending_node_id):
+        out += _attached(topology, c)
+    return tuple(sorted(out))
+
+
+def _suffix(topology, edge_id):
+    chain = []
+    cur = edge_id
+    while True:
+        chain.append("".join(map(str, _attached(topology, cur))))
+        parent = next(iter(topology.get_edge_ids_ingoing_to_node(topology.edges[cur].originating_node_id)))
+        if topology.edges[parent].originating_node_id is None:
+            break
+        cur = parent
+    return "_" + chain[0] + ("^" + ",".join(chain[1:]) if len(chain) > 1 else "")
+
+
+def helicity_bindings(topology, momenta: dict) -> list[tuple[str, float, dict]]:
+    """All documented bindings (name, value, info) for ONE event {final id: 4-vector}.
+
+    A name can be bound twice (node with two decaying children)."""
+    out = []
+
+    def rec(node, mom):
+        kids = sorted(topology.get_edge_ids_outgoing_from_node(node), key=lambda e: _attached(topology, e))
+        hel = kids[0]
+        decaying = [k for k in kids if topology.edges[k].ending_node_id is not None]
+        sfx = _suffix(topology, hel)
+        if not decaying:
+            phi, theta = phi_theta(mom[hel])
+            info = {"node": node, "filled_with": hel, "two_decaying_children": False}
+            out.append(("phi" + sfx, phi, info))
+            out.append(("theta" + sfx, theta, info))
+        for k in decaying:
+            ids = _attached(topology, k)
+            psum = sum(mom[i] for i in ids)
+            phi, theta = phi_theta(psum)
+            info = {"node": node, "filled_with": k, "two_decaying_children": len(decaying) == 2}
+            out.append(("phi" + sfx, phi, info))
+            out.append(("theta" + sfx, theta, info))
+            beta = math.sqrt(float(psum[1:] @ psum[1:])) / psum[0]
+            L = boost_z(beta) @ rot_y(-theta) @ rot_z(-phi)
+            rec(topology.edges[k].ending_node_id, {i: L @ mom[i] for i in ids})
+
+    root = next(iter(topology.incoming_edge_ids))
+    rec(topology.edges[root].ending_node_id, dict(momenta))
+    return out
+
+
+def invariant_mass_bindings(topology, momenta: dict) -> dict[str, float]:
+    out = {}
+    for e in topology.edges:
+        ids = _attached(topology, e)
+        p = sum(momenta[i] for i in ids)
+        m2 = float(minkowski_norm2(p))
+        out["m_" + "".join(map(str, ids))] = math.sqrt(m2) if m2 >= 0 else complex(0, math.sqrt(-m2))
+    return out
